@@ -88,3 +88,11 @@ func VerifHarness_C12_DepthGuard() {
 	err := c.Define(verifStubAPI())
 	verifAssert((err != nil) == (depth > 31), "DeletionMbuCircuit.Define returns an error exactly when Depth > 31")
 }
+
+// roots for the structural scan: everything the two circuit definitions can reach (gadget types enter through the interface
+// conversions inside Define / DefineGadget, so new gadgets are followed as well)
+var verifC12Sink []interface{}
+
+func VerifHarness_C12_Roots() {
+	verifC12Sink = append(verifC12Sink, frontend.Circuit(&InsertionMbuCircuit{}), frontend.Circuit(&DeletionMbuCircuit{}))
+}
